@@ -711,6 +711,19 @@ def _worker(task):
                 'why': traceback.format_exc()[-1500:], 'clauses': []}
 
 
+def _table_worker(name):
+    t0 = time.time()
+    try:
+        import logging
+        logging.disable(logging.CRITICAL)
+        if REPO not in sys.path:
+            sys.path.insert(0, REPO)
+        rows = S.TABLES[name]['rows'](REPO)
+        return [(str(a), bool(b), jv(c)) for a, b, c in rows], None, int((time.time() - t0) * 1000)
+    except Exception:
+        return [], traceback.format_exc()[-1200:], 0
+
+
 def required_list():
     p = os.path.join(VERIF, 'vf', 'required.json')
     if os.path.exists(p):
@@ -831,6 +844,42 @@ def verify(prop, modnames, tier, seed, only=None):
             out['results'].append(rec)
         if r['clauses'] and not got_mustfail and r.get('normal_paths', 0) > 0:
             out['errors'].append('vacuity: no reachable normal exit in %s [%s]' % (r['key'], r['case']))
+    # exhaustive finite tables (evaluated in a fresh process on the real modules)
+    tabs = [t for t in S.TABLES.values() if prop in t['props'] and (not only or only in t['name'])]
+    if tabs:
+        ctx2 = mp.get_context('fork')
+        with ctx2.Pool(min(8, len(tabs))) as pool2:
+            tres = pool2.map(_table_worker, [t['name'] for t in tabs], chunksize=1)
+        for t, (rows, err, ms) in zip(tabs, tres):
+            if err:
+                out['errors'].append('table %s: %s' % (t['name'], err))
+                continue
+            out['solver_ms_total'] += ms
+            out['backends']['eval'] = out['backends'].get('eval', 0) + len(rows)
+            if not rows:
+                out['errors'].append('table %s generated no obligations' % t['name'])
+            nshow = 0
+            for (oname, ok, detail) in rows:
+                name = 'table:%s::%s' % (t['name'], oname)
+                seen_names.add(name)
+                out['obligations'] += 1
+                rec = {'name': name, 'kind': 'table', 'result': 'unsat' if ok else 'sat',
+                       'backend': 'eval(finite,exhaustive)', 'ms': 0, 'paths': 1}
+                if ok:
+                    out['discharged'] += 1
+                    if nshow < 3:
+                        out['results'].append(rec)
+                        nshow += 1
+                else:
+                    rec['detail'] = detail
+                    out['results'].append(rec)
+                    out['violations'].append({
+                        'obligation': name, 'what': '%s: %s' % (name, detail),
+                        'input': jv(detail), 'key': name, 'table': t['name'], 'row': oname,
+                        'observed': jv(detail)})
+            out.setdefault('tables', []).append({'table': t['name'], 'rows': len(rows),
+                                                 'failed': sum(1 for r_ in rows if not r_[1]),
+                                                 'reads': list(t['reads'])})
     # lemmas over the contracts
     tmo = QUICK_MS if tier == 'quick' else THOROUGH_MS
     for lname, lm in S.LEMMAS.items():
@@ -923,6 +972,14 @@ def replay(case):
     prop = case.get('property')
     mods = props.PROPS[prop]['contracts']
     load_contracts(mods)
+    if case.get('table'):
+        rows, err, _ = _table_worker(case['table'])
+        for (oname, ok, detail) in rows:
+            if oname == case.get('row') and not ok:
+                print('REPRODUCED', case['table'], oname, json.dumps(detail)[:300])
+                return 1
+        print('not reproduced')
+        return 0
     key = case.get('contract')
     c = S.REGISTRY[key]
     idx = [i for i, cs in enumerate(c.cases()) if c.case_name(cs) == case.get('case')]
